@@ -147,7 +147,7 @@ LEMMAS = [
 # The contracts above are per call.  A call that FAILS part-way (a character outside the alphabet, a vowel in a SEDOL,
 # an unknown prefix, a wrong length) must leave nothing behind that changes what later calls compute: sequences of
 # refused and well-formed identifiers through all public functions, every well-formed one checked against the spec.
-BAD_CUSIP_CHARS = "- ./_$éa"
+BAD_CUSIP_CHARS = "- ./_$é"      # (a lower-case letter is not in this list: int(c, 36) values it like its capital)
 
 
 def _outcome(f, *a):
